@@ -82,7 +82,7 @@ D_GEN = {
         dict(Lattices="{301}", MinPts=0, MaxPts=3, MinPtsSet="{2, 3}", EpsSet="{11, 32, 21}", Specials=0, Hubs=0),
     ],
 }
-D_QUOTA = {"quick": {"structured": 900, "n5": 700, "rest": 1800}, "thorough": None}     # runs (= input x algorithm x index) per family
+D_QUOTA = {"quick": {"structured": 900, "n5": 700, "rest": 1800}, "thorough": {"structured": 6000, "n5": 8000, "rest": 26000}}     # runs (= input x algorithm x index) per family
 D_RANDOM = {"quick": 8, "thorough": 300}           # seeded structured inputs of C08's schema (n <= 40), x 6 runs
 
 
@@ -115,7 +115,7 @@ B_MC = {
 }
 B_ACTIONS = ["Start", "GPop", "Exhausted", "GScan"]
 B_TRACE_CONST = dict(MaxN=0, MaxN2=0, Coords1="{}", Coords2="{}", QLo=0, QHi=0, MetricSet="{}", MaxLeaf=0, GuardK0="TRUE")
-B_STRIDE = {"quick": 31, "thorough": 3}         # 1/stride sample of (C07 case x ball session x k / radius)
+B_STRIDE = {"quick": 31, "thorough": 23}        # 1/stride sample of (C07 case x ball session x k / radius)
 B_RANDOM = {"quick": 6, "thorough": 60}         # seeded random clouds of C07's schema (n <= 40), a few queries each
 
 
@@ -256,6 +256,166 @@ def validate(ctx, module, traces, constants, tag, chunk):
     return ok, [t["id"] for t in rej]
 
 
+# ---------------------------------------------------------------------------------------------
+# trace corruption self-test (DESIGN.md 10a.1; development only: VERIF_X09_CORRUPT=1): one logged field of one
+# event of an accepted hooked trace is perturbed; the case must be rejected (a field nobody reads is unbound)
+
+def _first(evs, name, pred=lambda e: True):
+    for k, e in enumerate(evs):
+        if e["ev"] == name and pred(e):
+            return k
+    return None
+
+
+def _corruptions():
+    """(tag, kind/alg selector, event name, event predicate, mutator)"""
+    def setf(f, delta):
+        def m(e):
+            e[f] = e[f] + delta
+        return m
+    def obsf(f, delta):
+        def m(e):
+            e[f]["i"] += delta
+        return m
+    def fxf(f, delta):
+        def m(e):
+            e[f]["fx"] += delta
+        return m
+    def droplast(f):
+        def m(e):
+            e[f] = e[f][:-1]
+        return m
+    def flip(f):
+        def m(e):
+            e[f] = not e[f]
+        return m
+    db, op, bt = ("dstep", "dbscan"), ("dstep", "optics"), ("ballq", None)
+    any_ = lambda e: True
+    C = [
+        ("db.skip.i", db, "skip", any_, setf("i", 1)),
+        ("db.skip.why", db, "skip", any_, lambda e: e.update(why=1 - e["why"], cnt=max(e["cnt"], 0))),
+        ("db.skip.cnt", db, "skip", lambda e: e["why"] == 1, setf("cnt", 1)),
+        ("db.seed.i", db, "seed", any_, setf("i", 1)),
+        ("db.seed.cid", db, "seed", any_, setf("cid", 1)),
+        ("db.seed.cnt", db, "seed", any_, setf("cnt", 1)),
+        ("db.seed.push-", db, "seed", lambda e: e["push"], droplast("push")),
+        ("db.seed.push+", db, "seed", any_, lambda e: e["push"].append(e["i"])),
+        ("db.pop.i", db, "pop", any_, setf("i", 1)),
+        ("db.pop.cid", db, "pop", any_, setf("cid", 1)),
+        ("db.pop.cnt", db, "pop", any_, setf("cnt", 1)),
+        ("db.pop.push-", db, "pop", lambda e: e["push"], droplast("push")),
+        ("db.pop.push+", db, "pop", any_, lambda e: e["push"].append(e["i"])),
+        ("db.close.cid", db, "close", any_, setf("cid", 1)),
+        ("db.end.n", db, "end", any_, setf("n", 1)),
+        ("db.labels", db, "labels", lambda e: e["labels"], lambda e: e["labels"].__setitem__(0, e["labels"][0] + 1)),
+        ("op.skip.i", op, "skip", any_, setf("i", 1)),
+        ("op.start.i", op, "start", any_, setf("i", 1)),
+        ("op.start.nn", op, "start", any_, setf("nn", 1)),
+        ("op.start.nseeds", op, "start", any_, setf("nseeds", 1)),
+        ("op.start.core", op, "start", lambda e: e["core"]["def"], obsf("core", 1)),
+        ("op.start.reach", op, "start", any_, lambda e: e["reach"].update({"def": True, "i": 1})),
+        ("op.start.upd.j", op, "start", lambda e: e["upd"], lambda e: e["upd"][0].update(j=e["i"])),
+        ("op.start.upd.r", op, "start", lambda e: e["upd"], lambda e: e["upd"][0]["r"].update(i=e["upd"][0]["r"]["i"] + 1)),
+        ("op.start.upd.isnew", op, "start", lambda e: e["upd"], lambda e: e["upd"][0].update(isnew=False)),
+        ("op.start.upd.nseeds", op, "start", lambda e: e["upd"], lambda e: e["upd"][0].update(nseeds=e["upd"][0]["nseeds"] + 1)),
+        ("op.start.upd-", op, "start", lambda e: e["upd"], droplast("upd")),
+        ("op.pop.i", op, "pop", any_, setf("i", 1)),
+        ("op.pop.nn", op, "pop", any_, setf("nn", 1)),
+        ("op.pop.nseeds", op, "pop", any_, setf("nseeds", 1)),
+        ("op.pop.core", op, "pop", lambda e: e["core"]["def"], obsf("core", 1)),
+        ("op.pop.reach", op, "pop", any_, obsf("reach", 1)),
+        ("op.pop.upd.r", op, "pop", lambda e: e["upd"], lambda e: e["upd"][0]["r"].update(i=e["upd"][0]["r"]["i"] + 1)),
+        ("op.pop.upd.isnew", op, "pop", lambda e: e["upd"], lambda e: e["upd"][0].update(isnew=not e["upd"][0]["isnew"])),
+        ("op.pop.upd-", op, "pop", lambda e: e["upd"], droplast("upd")),
+        ("op.endwalk.n", op, "endwalk", any_, setf("n", 1)),
+        ("op.end.n", op, "end", any_, setf("n", 1)),
+        ("op.order.reach", op, "order", lambda e: any(o["reach"]["def"] for o in e["order"]),
+         lambda e: [o for o in e["order"] if o["reach"]["def"]][0]["reach"].update(i=[o for o in e["order"] if o["reach"]["def"]][0]["reach"]["i"] + 1)),
+        ("op.order.swap", op, "order", lambda e: len(e["order"]) >= 2, lambda e: e["order"].__setitem__(slice(0, 2), [e["order"][1], e["order"][0]])),
+        ("bt.start.k", bt, "start", any_, setf("k", 1)),
+        ("bt.start.maxr", bt, "start", lambda e: not e["maxr"]["inf"], obsf("maxr", 1)),
+        ("bt.start.lb", bt, "start", any_, fxf("lb", 64)),
+        ("bt.start.tree.centre", bt, "start", lambda e: e["tree"]["c"], lambda e: e["tree"]["c"][0].update(fx=e["tree"]["c"][0]["fx"] + 6400)),
+        ("bt.start.tree.radius", bt, "start", any_, lambda e: e["tree"]["r"].update(fx=e["tree"]["r"]["fx"] + 6400)),
+        ("bt.start.tree.split", bt, "start", lambda e: not e["tree"]["leaf"] and e["tree"]["l"]["leaf"] and e["tree"]["rt"]["leaf"]
+         and len(e["tree"]["rt"]["pts"]) >= 2,
+         lambda e: e["tree"]["l"]["pts"].append(e["tree"]["rt"]["pts"].pop())),
+        ("bt.pop.node", bt, "pop", lambda e: len(e["node"]) >= 2, droplast("node")),
+        ("bt.pop.lb", bt, "pop", any_, fxf("lb", 64)),
+        ("bt.pop.outlen", bt, "pop", any_, setf("outlen", 1)),
+        ("bt.pop.worst", bt, "pop", lambda e: e["worst"]["def"], obsf("worst", 64)),
+        ("bt.pop.act", bt, "pop", lambda e: e["act"] == "leaf", lambda e: e.update(act="break")),
+        ("bt.pop.kids.pushed", bt, "pop", lambda e: e["act"] == "kids", lambda e: e["kids"][0].update(pushed=not e["kids"][0]["pushed"])),
+        ("bt.pop.kids.lb", bt, "pop", lambda e: e["act"] == "kids", lambda e: e["kids"][1]["lb"].update(fx=e["kids"][1]["lb"]["fx"] + 64)),
+        ("bt.pop.kids.node", bt, "pop", lambda e: e["act"] == "kids", lambda e: e["kids"].reverse()),
+        ("bt.point.idx", bt, "point", any_, setf("idx", 1)),
+        ("bt.point.d", bt, "point", any_, obsf("d", 64)),
+        ("bt.point.kept", bt, "point", any_, flip("kept")),
+        ("bt.point.outlen", bt, "point", any_, setf("outlen", 1)),
+        ("bt.point.worst", bt, "point", lambda e: e["worst"]["def"], obsf("worst", 64)),
+        ("bt.done.n", bt, "done", any_, setf("n", 1)),
+        ("bt.result.pos", bt, "result", lambda e: e["pos"], droplast("pos")),
+        ("bt.drop_event", bt, "pop", any_, None),
+        ("db.drop_event", db, "pop", any_, None),
+        ("op.drop_event", op, "pop", any_, None),
+    ]
+    return C
+
+
+def corrupt_selftest(ctx, dtr, btr, okd, okb, per=3):
+    import copy
+    out = {}
+    jobs = {"dstep": [], "ballq": []}
+    nid = 10 ** 6
+    for tag, (kind, alg), evn, pred, mut in _corruptions():
+        pool = [t for t in (dtr if kind == "dstep" else btr)
+                if t["inp"]["hook"] and (t["id"] in okd or t["id"] in okb) and (alg is None or t["inp"]["alg"] == alg)
+                and _first(t["ev"], evn, pred) is not None]
+        # prefer small cases whose bounds are exact (a perturbation inside an undecided interval is legitimately accepted)
+        pool.sort(key=lambda t: (len(json.dumps(t["inp"])), t["id"]))
+        chosen = pool[:: max(1, len(pool) // per)][:per]
+        for t in chosen:
+            t2 = copy.deepcopy(t)
+            k = _first(t2["ev"], evn, pred)
+            if mut is None:
+                del t2["ev"][k]
+            else:
+                mut(t2["ev"][k])
+            nid += 1
+            t2["id"] = nid
+            jobs[kind].append((tag, t2))
+        out[tag] = {"tried": len(chosen), "rejected": 0}
+    controls = 0
+    for kind, module, consts in (("dstep", "Trace_X09Density", D_TRACE_CONST), ("ballq", "Trace_X09Ball", B_TRACE_CONST)):
+        if not jobs[kind]:
+            continue
+        # unmodified copies of the same traces under new ids must still be accepted (the test itself is not vacuous)
+        ctl = []
+        for _, t in jobs[kind][::7]:
+            orig = copy.deepcopy([x for x in (dtr if kind == "dstep" else btr) if x["inp"] == t["inp"]][0])
+            nid += 1
+            orig["id"] = nid
+            ctl.append(orig)
+        okc, _ = vlib.tlc_validate(ctx, module, ctl, constants=consts, tag=module + "_corrupt_control", devs=[], spec_next="TraceNextFast")
+        if len(okc) != len(ctl):
+            raise vlib.ToolError("trace corruption self-test: an unmodified control copy was rejected")
+        controls += len(ctl)
+        ok, _ = vlib.tlc_validate(ctx, module, [t for _, t in jobs[kind]], constants=consts, tag=module + "_corrupt", devs=[],
+                                  spec_next="TraceNextFast")
+        for tag, t in jobs[kind]:
+            if t["id"] not in ok:
+                out[tag]["rejected"] += 1
+    unbound = sorted(tag for tag, v in out.items() if v["tried"] and v["rejected"] < v["tried"])
+    untried = sorted(tag for tag, v in out.items() if not v["tried"])
+    ctx.extra["trace_corruption"] = {"fields": len(out), "corrupted_traces": sum(v["tried"] for v in out.values()),
+                                     "rejected": sum(v["rejected"] for v in out.values()), "accepted_although_corrupted": unbound,
+                                     "unmodified_control_copies_accepted": controls,
+                                     "no_trace_with_event": untried}
+    vlib.log("trace corruption: %d corrupted traces, %d rejected; accepted: %s; untried: %s"
+             % (sum(v["tried"] for v in out.values()), sum(v["rejected"] for v in out.values()), unbound, untried))
+    return unbound
+
+
 def run(ctx):
     binp = vlib.cargo_build("x09")
     hooks = hooks_present()
@@ -311,6 +471,13 @@ def run(ctx):
             feats[x] = feats.get(x, 0) + 1
         if tg:
             nontriv.add(json.dumps(t["inp"], sort_keys=True))
+    # without hooks there are no step events to measure on: count the accepted inputs that can branch at all
+    for t in dtr:
+        if t["id"] in okd and not t["inp"]["hook"] and len(t["inp"]["pts"]) >= 3:
+            nontriv.add(json.dumps(t["inp"], sort_keys=True))
+    for t in btr:
+        if t["id"] in okb and not t["inp"]["hook"] and 1 <= t["inp"]["leaf"] < t["inp"]["n"]:
+            nontriv.add(json.dumps(t["inp"], sort_keys=True))
     ctx.nontrivial = len(nontriv)
     ctx.extra["accepted_case_features"] = feats
     ctx.extra["cases_validated_without_step_events"] = nohook
@@ -335,6 +502,12 @@ def run(ctx):
         for n in need:
             if feats.get(n, 0) == 0:
                 raise vlib.ToolError("vacuity: no accepted case with feature %s" % n)
+    if os.environ.get("VERIF_X09_CORRUPT") == "1" and not rejd and not rejb:
+        v0 = ctx.validated
+        unbound = corrupt_selftest(ctx, dtr, btr, okd, okb)
+        ctx.validated = v0
+        if unbound:
+            raise vlib.ToolError("trace corruption accepted (unbound fields): %s" % ", ".join(unbound))
     vlib.sample(ctx, [t for t in dtr if t["inp"]["alg"] == "dbscan" and len(t["inp"]["pts"]) == 4 and len(t["ev"]) > 6][:1]
                 + [t for t in dtr if t["inp"]["alg"] == "optics" and len(t["inp"]["pts"]) == 4 and len(t["ev"]) > 6][:1]
                 + [t for t in btr if t["inp"]["n"] == 3 and t["inp"]["leaf"] == 1 and len(t["ev"]) > 5][:1])
@@ -346,7 +519,8 @@ def run(ctx):
                 "1/%d sample of that product + seeded clouds n<=40; every event of a run is one TLC step; non-trivial = an accepted run "
                 "in which a core candidate extended the queue, a border candidate was labelled, two clusters/walks occurred, a "
                 "reachability was lowered, a seed was popped among several, a search stopped with pending nodes, a child was pruned, "
-                "a point was rejected or the candidate set was full (measured on the recorded events); distinct by input"
+                "a point was rejected or the candidate set was full (measured on the recorded events; on a tree without the hooks: "
+                "an accepted run with >= 3 points resp. a query on a tree with >= 2 nodes); distinct by input"
                 % B_STRIDE[ctx.tier])
     ctx.trusted = ["TLC + CommunityModules Json", "hook call sites (docs/reports/X09-hook.diff: add-only, behind cfg(linfa_verif))",
                    "harness encoders (harness/src/bin/x09.rs: hook floats -> exact-integer observations / fixed point 1/6400, "
